@@ -105,6 +105,9 @@ def run_episode(spec, uid="E"):
                         pats = [to_regex(p) for p in pats]
                     if o["kind"] == "regex" and o.get("escape"):      # literal text used as a regular expression
                         pats = [re.escape(p) for p in pats]
+                    if o["kind"] == "regex" and o.get("join") and len(pats) > 1 and not any(p.startswith("(?") for p in pats):
+                        # several regular expressions written as ONE with a top-level alternation: the same match set
+                        pats = ["|".join(pats)]
                     o["patterns"] = pats
                     return o
 
